@@ -2,8 +2,9 @@
      (foot UNITS (ops (pi "s")|(pf "s")|(fsi N)|(fli N)|(fsf F)|(flf F) ...))
    the operations run one after the other on ONE fresh unit definition; observation: per operation
    the cache cells it filled:  (r (w sorted? re?) ...)  — first use fills, later use fills nothing. *)
-From Verif Require Import Base.Prelude Base.Str Base.Float Schema.Regex Schema.Units ATP.Msg ATP.Footprint
-  Interp.Sexp Interp.RunUnits Interp.Codec.
+From Verif Require Import Base.Prelude Base.Str Base.Float Base.GoVal Schema.Regex Schema.Units Schema.Syntax Schema.Ops
+  Schema.FloatUnits ATP.Msg ATP.Footprint Schema.FootprintOps Generated.Tables
+  Interp.Sexp Interp.RunUnits Interp.Codec Interp.RunSchema.
 Open Scope string_scope.
 
 (* strings.TrimSpace leaves nothing: ASCII white space only (the generator's alphabet) *)
@@ -44,7 +45,7 @@ Fixpoint run_foot_ops (sh : shape) (st : cstate) (ops : list units_op) : list se
       Ls (At "w" :: map s_cell (fold_right ins_cell [] (newly_filled st st'))) :: run_foot_ops sh st' r
   end.
 
-Definition run_foot_case (x : sexp) : sexp :=
+Definition run_foot_units_case (x : sexp) : sexp :=
   match x with
   | Ls [At "foot"; ux; Ls (At "ops" :: ops)] =>
       match units_of ux, opt_mapM units_op_of ops with
@@ -55,4 +56,79 @@ Definition run_foot_case (x : sexp) : sexp :=
       | _, None => bad "ops"
       end
   | _ => bad "foot case"
+  end.
+
+(* ---------- whole schema operations (cases `footops`, harness/cmd/harness/c13_footops.go):
+     (footops fresh|lazy ENV SCHEMA (ops (u V)|(v V)|(s V)|(c V) ...))
+   prediction: (r (init all|none) (o CLASS (d CELL...) (t CELL...) (m CELL...)) ...)   CELL ::= (sorted N)|(re N)|(defaults N)
+     d: the cells the operation fills in the model's own state-passing run (run_prims from the state the
+        previous operations left);  t: the cells its uses fill from an EMPTY state, in the model's
+        evaluation order (for an operation that succeeds: every cell it touches, whatever the order);
+     m: the same with the iterations over Go maps continued past failing entries (upper bound for an
+        operation that fails, whatever iteration order the runtime picked). ---------- *)
+Definition s_ncell (c : cell) : sexp :=
+  match c with
+  | CUnitsSorted n => Ls [At "sorted"; sz (Z.of_N n)] | CUnitsRe n => Ls [At "re"; sz (Z.of_N n)]
+  | CDefaults n => Ls [At "defaults"; sz (Z.of_N n)] | CStepData n => Ls [At "stepdata"; sz (Z.of_N n)]
+  | CLink n => Ls [At "link"; sz (Z.of_N n)]
+  end.
+Definition cell_num (c : cell) : N :=
+  match c with CUnitsSorted n | CUnitsRe n | CDefaults n | CStepData n | CLink n => n end.
+Definition ncell_ltb (a b : cell) : bool :=
+  N.ltb (cell_num a) (cell_num b) || (N.eqb (cell_num a) (cell_num b) && Z.ltb (cell_rank a) (cell_rank b)).
+Fixpoint ins_ncell (c : cell) (l : list cell) : list cell :=
+  match l with [] => [c] | x :: t => if ncell_ltb c x then c :: l else x :: ins_ncell c t end.
+Definition s_cells (tag : string) (l : list cell) : sexp := Ls (At tag :: map s_ncell (fold_right ins_ncell [] l)).
+
+Definition s_class0 {A} (o : outcome A) : sexp :=
+  match o with Ok _ => At "ok" | Err _ => At "err" | Panic _ => At "panic" | OutOfFuel => At "diverged" end.
+Definition xprims_op (cont : bool) (k : string) (e : env) (s : schema) (v : gval) : list xprim :=
+  let ne := nenv0 e s in
+  if String.eqb k "u" then xprims_unser bool_words parse_units_float cont FUEL 0%N ne e s v
+  else if String.eqb k "v" then xprims_validate bool_words parse_units_float cont FUEL 0%N ne e s v
+  else if String.eqb k "s" then xprims_serialize bool_words parse_units_float cont FUEL 0%N ne e s v
+  else xprims_compat bool_words parse_units_float cont FUEL 0%N ne e s v.
+Definition class_op (k : string) (e : env) (s : schema) (v : gval) : sexp :=
+  if String.eqb k "u" then s_class0 (m_unser FUEL e s v)
+  else if String.eqb k "v" then s_class0 (m_validate FUEL e s v)
+  else if String.eqb k "s" then s_class0 (m_serialize FUEL e s v)
+  else s_class0 (m_compat FUEL e s v).
+
+Fixpoint run_footops (lazy : bool) (e : env) (s : schema) (st : cstate) (ops : list sexp) : list sexp :=
+  match ops with
+  | [] => []
+  | Ls [At k; vx] :: r =>
+      match gval_of DEPTH vx with
+      | Some v =>
+          let xs := xprims_op false k e s v in
+          let xm := xprims_op true k e s v in
+          let sh := shape_of xs lazy in
+          let '(_, st') := run_prims sh true st (map prim_of xs) in
+          let '(_, st0) := run_prims sh true cs_empty (map prim_of xs) in
+          let '(_, stm) := run_prims (shape_of xm lazy) true cs_empty (map prim_of xm) in
+          Ls [At "o"; class_op k e s v; s_cells "d" (newly_filled st st');
+              s_cells "t" (cs_filled st0); s_cells "m" (cs_filled stm)] :: run_footops lazy e s st' r
+      | None => [bad "value"]
+      end
+  | _ :: _ => [bad "op shape"]
+  end.
+
+Definition run_footops_case (x : sexp) : sexp :=
+  match x with
+  | Ls [At "footops"; At mode; ex; sx; Ls (At "ops" :: ops)] =>
+      match env_of ex, schema_of DEPTH sx with
+      | Some e, Some s =>
+          let lazy := String.eqb mode "lazy" in
+          Ls (At "r" :: Ls [At "init"; At (if lazy then "none" else "all")] :: run_footops lazy e s cs_empty ops)
+      | None, _ => bad "env"
+      | _, None => bad "schema"
+      end
+  | _ => bad "footops case"
+  end.
+
+(* family c13foot: dispatch on the head of the payload *)
+Definition run_foot_case (x : sexp) : sexp :=
+  match x with
+  | Ls (At "footops" :: _) => run_footops_case x
+  | _ => run_foot_units_case x
   end.
